@@ -1,5 +1,12 @@
 package sim
 
+import (
+	"encoding/json"
+	"os"
+	"path/filepath"
+	"sort"
+)
+
 // EngineFor returns the function that executes a plan for a property.
 func EngineFor(prop string) func(*Plan) *RunResult {
 	switch prop {
@@ -122,6 +129,9 @@ var CompensateGetLeak bool
 // TolerateOldVersionLeak: see the known finding "old-version-lazy-load-leak" (C15).
 var TolerateOldVersionLeak bool
 
+// TolerateEvictAbsorb: see the known finding "evict-absorbs-fault" (C07).
+var TolerateEvictAbsorb bool
+
 // Canary is a fixed scenario that triggers a known finding on purpose.
 type Canary struct {
 	ID   string
@@ -133,9 +143,33 @@ type Canary struct {
 
 func b(s string) []byte { return []byte(s) }
 
+// CanaryDir: directory with file-based canaries (<dir>/<prop>/<id>.json).
+var CanaryDir string
+
+type canaryFile struct {
+	ID     string `json:"id"`
+	Prop   string `json:"prop"`
+	Oracle string `json:"oracle"`
+	Plan   *Plan  `json:"plan"`
+}
+
 // Canaries lists the deliberate scenarios of a property.
 func Canaries(prop string) []Canary {
 	var res []Canary
+	if CanaryDir != "" {
+		files, _ := filepath.Glob(filepath.Join(CanaryDir, prop, "*.json"))
+		sort.Strings(files)
+		for _, f := range files {
+			b, err := os.ReadFile(f)
+			if err != nil {
+				continue
+			}
+			var cf canaryFile
+			if json.Unmarshal(b, &cf) == nil && cf.Plan != nil {
+				res = append(res, Canary{ID: cf.ID, Prop: cf.Prop, Oracle: cf.Oracle, Plan: cf.Plan})
+			}
+		}
+	}
 	switch prop {
 	case "C15":
 		res = append(res, Canary{ID: "get-ref-leak", Prop: "C15", Oracle: "refcount-unbalanced", Plan: &Plan{Prop: "C15", Profile: "C15", Seed: 1, Ops: []Op{
